@@ -353,6 +353,8 @@ def scenario(rng, reqs, kt, n_req=1, force=None, tx_dt=0, rqs=None):
 
 def model_cmd(sc, sk):
     head = 'reqs'
+    if sc.get('backend') == 'gpsd':
+        head = 'reqsgpsd'          # model/LineBackend.v: gpsd_script_backend (flush and recover are no-ops)
     if sc.get('backend') == 'tty':
         # the model of the serial backend over a line (model/LineBackend.v): port and receiver at the bit rate in force
         cur = sc['bauds'][1] if sc['bauds'][1] is not None else sc['bauds'][0]
@@ -366,6 +368,12 @@ def describe(sc):
             'script': Q.script_token(sc['script'])[:3000], 'requests': [f'{rq.op}:{rq.label}' for rq in sc['reqs']],
             'plan': [list(map(str, p)) for p in sc['plan']], 'backend': sc.get('backend', 'scripted subclass of the base class'),
             'bauds': list(sc.get('bauds', ()))}
+
+
+def on_gpsd(rng, sc):
+    """Turn a scenario into one for the real gpsd backend over scripted sockets (recv(128) on the data socket)."""
+    dev = rng.choice(['/dev/ttyS3', '/dev/gnss0', '/dev/serial/by-id/usb-u-blox_AG'])
+    return dict(sc, script=Q.chunk128(sc['script']), backend='gpsd', bauds=(dev, rng.choice([None, None, dev, '/dev/ttyACM7'])))
 
 
 def on_tty(rng, sc, limit=400):
